@@ -292,6 +292,8 @@ def run(ctx, rep):
     c04_recursion.run_fmtself(ctx, rep)
     from rules import c04_magnitude
     c04_magnitude.run(ctx, rep)
+    from rules import c04_backtrack
+    c04_backtrack.run(ctx, rep)
 
 
 CLIPPY_LINTS = ["unwrap_used", "expect_used", "panic", "todo", "unimplemented", "unreachable", "indexing_slicing", "string_slice"]
